@@ -24,6 +24,11 @@
                      [r'this\.highlight_word_piece\(subpiece, HighlightKind::Quoted, global_offset\)', r'__o.nested_piece(this, subpiece, global_offset)', 1],
                      [r'(?s)this\.highlight_program\(\s*command\.as_str\(\),\s*piece\.start \+ 1,?[^)]*\)', r'__o.nested_program(this, &command, piece.start + 1)', 1],
                      [r'this\.highlight_program\(command\.as_str\(\), piece\.start \+ 2[^)]*\)', r'__o.nested_program(this, &command, piece.start + 2)', 1]]},
+ 'token_step': {'file': 'brush-interactive/src/highlighting.rs', 'start': r'^\s*match token \{', 'mode': 'block',
+        'rewrites': [[r'(?s)brush_parser::word::parse\(raw_word_text, &self\.shell\.parser_options\(\)\)', r'__o.parse_word(raw_word_text)', 1],
+                     [r'(?s)self\.get_kind_for_word\(\s*w\.as_str\(\),\s*&token_range,\s*&mut saw_command_token,\s*\)', r'__o.kind(&token_range, &mut saw_command_token)', 1],
+                     [r'self\.append_span\(', r't_append_span(this, ', 1],
+                     [r'(?s)self\.highlight_word_piece\(\s*word_piece,\s*default_text_kind,\s*token_range\.start,\s*\)', r't_word_piece(this, word_piece, default_text_kind, token_range.start, __o)', 1]]},
  'program': {'file': 'brush-interactive/src/highlighting.rs', 'start': r'fn highlight_program\(&mut self, line: &str, global_offset: usize\)', 'mode': 'fn_body', 'self_to': 'this',
         'rewrites': [[r'(?s)brush_parser::tokenize_str_with_options\(\s*line,\s*&\(this\.shell\.parser_options\(\)\.tokenizer_options\(\)\),\s*\)', r'__o.tokenize(line)', 1],
                      [r'(?s)brush_parser::word::parse\(raw_word_text, &this\.shell\.parser_options\(\)\)', r'__o.parse_word(raw_word_text)', 1],
@@ -34,6 +39,9 @@
 }
 @*/
 use super::{HighlightKind, HighlightSpan};
+// the char->byte table of highlight_program is collected into a `Vec<usize>`: growing a real Vec from an iterator cost 8 minutes of
+// CBMC time for a 6-byte line; the array-backed stand-in (capacity 6, so lines of <= 5 bytes in the whole-program harnesses) does not
+use crate::vk_prelude::ArrVec as Vec;
 
 // ---------------------------------------------------------------- light stand-ins for the parser types (shadow the extern crate name inside this module)
 pub mod brush_parser {
@@ -82,7 +90,7 @@ impl LineStr {
     pub fn char_indices(&self) -> CharIdx { CharIdx { i: 0, n: self.n } }
     pub fn len(&self) -> usize { self.n }
     /// a slice of the right *length* (the word parser oracle bounds its piece offsets by it)
-    pub fn get(&self, r: std::ops::Range<usize>) -> Option<&str> { if r.start <= r.end && r.end <= self.n { Some(&"aaaaaaaa"[..r.end - r.start]) } else { None } }
+    pub fn get(&self, r: std::ops::Range<usize>) -> Option<&str> { if r.start <= r.end && r.end <= self.n { Some(&"aaaaaaaaaaaaaaaa"[..r.end - r.start]) } else { None } }
 }
 #[derive(Debug)]
 pub struct LineTok { pub len: usize }
@@ -149,6 +157,12 @@ fn t_set_missing(this: &mut Hl, kind: HighlightKind) {
 fn t_word_piece(this: &mut Hl, word_piece: WordPieceWithSource, default_text_kind: HighlightKind, global_offset: usize, __o: &mut HOracle) {
 /*@LIFT word_piece*/
 }
+/// the body of the token loop of highlight_program (`match token {...}`), with the char->byte table of an ASCII line (identity, clamped)
+fn t_token_step(this: &mut Hl, token: Token, line: &LineStr, global_offset: usize, __o: &mut HOracle) {
+    let mut saw_command_token = false;
+    let byte_offset = |char_offset: usize| if char_offset <= line.len() { char_offset } else { line.len() };
+/*@LIFT token_step*/
+}
 fn t_program(this: &mut Hl, line: &LineStr, global_offset: usize, __o: &mut HOracle) {
 /*@LIFT program*/
 }
@@ -189,13 +203,13 @@ fn leaf_kind(k: u8) -> u8 { match k { 0 => 0, 1 => 1, _ => 6 } }   // Text, Sing
 
 /// `max_tok` tokens, `max_pieces` leaf pieces per word
 fn program_harness(max_tok: usize, max_pieces: usize) {
-    let line = LineStr { n: 6 };
-    let mut hl = fresh(6);
+    let line = LineStr { n: 5 };
+    let mut hl = fresh(5);
     let mut o = blank_oracle();
     o.tok_err = kani::any();
     o.ntok = kani::any(); kani::assume(o.ntok <= max_tok);
     let (s0, e0, s1, e1): (usize, usize, usize, usize) = (kani::any(), kani::any(), kani::any(), kani::any());
-    kani::assume(s0 <= e0 && e0 <= s1 && s1 <= e1 && e1 <= 6);
+    kani::assume(s0 <= e0 && e0 <= s1 && s1 <= e1 && e1 <= 5);
     o.t = [(kani::any(), s0, e0), (kani::any(), s1, e1)];
     o.parse_err = [kani::any(), kani::any()];
     let mut w = 0;
@@ -207,21 +221,61 @@ fn program_harness(max_tok: usize, max_pieces: usize) {
         w += 1;
     }
     t_program(&mut hl, &line, 0, &mut o);
-    kani::cover!(!o.tok_err && o.ntok == max_tok && !o.t[0].0 && s0 > 0 && e0 < 6, "word_with_gaps_around_it");
+    kani::cover!(!o.tok_err && o.ntok == max_tok && !o.t[0].0 && s0 > 0 && e0 < 5, "word_with_gaps_around_it");
     kani::cover!(o.tok_err, "tokenizer_error");
     kani::cover!(!o.tok_err && o.ntok == 0, "blank_or_comment_line");
     assert!(hl.spans.tiled, "C19.program.spans_contiguous_ordered_non_empty");
-    assert!(hl.spans.end == 6 && hl.current_byte_index == 6, "C19.program.spans_cover_the_whole_line");
+    assert!(hl.spans.end == 5 && hl.current_byte_index == 5, "C19.program.spans_cover_the_whole_line");
     assert!(hl.spans.count >= 1, "C19.program.at_least_one_span");
 }
 fn any_below3() -> u8 { let v: u8 = kani::any(); kani::assume(v < 3); v }
 
-//@proof {'props': ['C19'], 'tier': 'quick', 'timeout': 1200, 'uses': ['append_span', 'skip_ahead', 'set_missing', 'word_piece', 'program'], 'bounds': 'a 6-byte ASCII line; tokenizer error, or 0..1 token (operator / word) at a symbolic in-range character range; the word: parse error or 0..2 text pieces at symbolic in-order offsets inside the word (the other piece kinds: vk_c19_word_piece_step)', 'desc': 'highlight_program on a whole line with one token: whatever the token and piece layout (within the offset contract), the spans are ordered, contiguous, non-empty and cover exactly [0, len) - rendering the spans reproduces the line; a tokenizer error yields one span over the whole line'}
+//@proof {'props': ['C19'], 'tier': 'thorough', 'timeout': 3000, 'uses': ['append_span', 'skip_ahead', 'set_missing', 'word_piece', 'program'], 'bounds': 'a 5-byte ASCII line; tokenizer error, or 0..1 token (operator / word) at a symbolic in-range character range; the word: parse error or 0..2 text pieces at symbolic in-order offsets inside the word (the other piece kinds: vk_c19_word_piece_step)', 'desc': 'highlight_program on a whole line with one token: whatever the token and piece layout (within the offset contract), the spans are ordered, contiguous, non-empty and cover exactly [0, len) - rendering the spans reproduces the line; a tokenizer error yields one span over the whole line'}
 #[kani::proof]
 #[kani::unwind(8)]
 fn vk_c19_program_one_token() { program_harness(1, 2); }
 
-//@proof {'props': ['C19'], 'tier': 'quick', 'timeout': 1200, 'uses': ['append_span', 'skip_ahead', 'set_missing', 'word_piece', 'program'], 'bounds': 'a 6-byte ASCII line; 0..2 tokens at symbolic in-order ranges; each word: parse error or 0..1 text piece', 'desc': 'highlight_program with two tokens: gaps before, between and after the tokens are filled; coverage of [0, len) as above'}
+//@proof {'props': ['C19'], 'tier': 'thorough', 'timeout': 3000, 'uses': ['append_span', 'skip_ahead', 'set_missing', 'word_piece', 'program'], 'bounds': 'a 5-byte ASCII line; 0..2 tokens at symbolic in-order ranges; each word: parse error or 0..1 text piece', 'desc': 'highlight_program with two tokens: gaps before, between and after the tokens are filled; coverage of [0, len) as above'}
 #[kani::proof]
 #[kani::unwind(8)]
 fn vk_c19_program_two_tokens() { program_harness(2, 1); }
+
+//@proof {'props': ['C19'], 'tier': 'quick', 'timeout': 900, 'uses': ['append_span', 'skip_ahead', 'set_missing', 'word_piece', 'token_step'], 'bounds': 'one token (operator or word, symbolic) at a symbolic character range inside a 12-byte ASCII line, processed from an arbitrary tiled state whose cursor has not passed its start; the word: parse error or 0..2 text pieces at in-order offsets inside it', 'desc': 'one iteration of the token loop of highlight_program: the spans stay contiguous, ordered and non-empty and the cursor never moves past the end of the token (an operator or a fully parsed word leaves it exactly there; a word that does not parse is left to the next gap filler)'}
+#[kani::proof]
+#[kani::unwind(5)]
+fn vk_c19_token_step() {
+    let line = LineStr { n: 12 };
+    let (cur, g, s, e): (usize, usize, usize, usize) = (kani::any(), kani::any(), kani::any(), kani::any());
+    kani::assume(g <= 2 && s <= e && e <= 12 && cur <= g + s);
+    let mut hl = fresh(14);
+    hl.current_byte_index = cur; hl.spans.end = cur;
+    let mut o = blank_oracle();
+    o.parse_err = [kani::any(), false];
+    o.np[0] = kani::any(); kani::assume(o.np[0] <= 2);
+    let is_op: bool = kani::any();
+    let l = Loc { start: Pos { index: s }, end: Pos { index: e } };
+    let token = if is_op { Token::Operator(W, l) } else { Token::Word(W, l) };
+    t_token_step(&mut hl, token, &line, g, &mut o);
+    kani::cover!(!is_op && !o.parse_err[0] && o.np[0] == 2, "word_with_two_pieces");
+    kani::cover!(is_op && cur < g + s, "operator_after_a_gap");
+    assert!(hl.spans.tiled, "C19.token.spans_contiguous_ordered_non_empty");
+    assert!(hl.spans.end == hl.current_byte_index, "C19.token.everything_before_the_cursor_is_covered");
+    assert!(hl.current_byte_index <= g + e && hl.current_byte_index >= cur, "C19.token.cursor_monotone_and_within_the_token");
+    if is_op && s < e { assert!(hl.current_byte_index == g + e, "C19.token.operator_span_ends_at_token_end"); }
+}
+
+//@proof {'props': ['C19'], 'tier': 'quick', 'timeout': 900, 'uses': ['append_span', 'skip_ahead', 'program'], 'bounds': 'a 5-byte ASCII line; the tokenizer fails, or finds no token (blank / comment line)', 'desc': 'the frame of highlight_program: with no tokens the whole line is one gap span; with a tokenizer error it is one default span; in both cases [0, len) is covered exactly (the token loop itself: vk_c19_token_step; whole-program runs with tokens: thorough tier)'}
+#[kani::proof]
+#[kani::unwind(8)]
+fn vk_c19_program_frame() {
+    let line = LineStr { n: 5 };
+    let mut hl = fresh(5);
+    let mut o = blank_oracle();
+    o.tok_err = kani::any();
+    o.ntok = 0;
+    t_program(&mut hl, &line, 0, &mut o);
+    kani::cover!(o.tok_err, "tokenizer_error");
+    kani::cover!(!o.tok_err, "no_tokens");
+    assert!(hl.spans.tiled && hl.spans.count == 1, "C19.frame.one_span");
+    assert!(hl.spans.end == 5 && hl.current_byte_index == 5, "C19.frame.covers_the_whole_line");
+}
